@@ -785,6 +785,13 @@ pub fn structured(prop: &'static str, spans: bool, only_spans: bool) -> Tally {
 }
 
 pub fn replay(case: &serde_json::Value, spans: bool, only_spans: bool) -> bool {
+    if case["engine"] == "message-probe" {
+        let t = message_probe();
+        for v in &t.violations {
+            println!("replay: {}", v.what);
+        }
+        return t.violations.is_empty();
+    }
     let hist: Vec<Op> = serde_json::from_value(case["hist"].clone()).unwrap();
     match catch(std::panic::AssertUnwindSafe(|| check_history(&hist, spans, only_spans))) {
         Ok(Ok(())) => {
@@ -802,6 +809,85 @@ pub fn replay(case: &serde_json::Value, spans: bool, only_spans: bool) -> bool {
     }
 }
 
+/// The kind-specific message carries what the constructor was given: every argument appears in
+/// the text, two kinds never share a text for the same argument, two arguments never share a text
+/// for the same kind, `custom` is the text itself, and a location is appended as ` at <path>`.
+/// (Wording is free; dropping or merging information is not.)
+fn message_probe() -> Tally {
+    let mut t = Tally::default();
+    let args = ["alpha_q", "beta_w"];
+    type Mk = (&'static str, fn(&str) -> Error, fn(&str) -> Vec<String>);
+    let one = |a: &str| vec![a.to_string()];
+    let kinds: Vec<Mk> = vec![
+        ("custom", |a| Error::custom(a), one),
+        ("duplicate_field", |a| Error::duplicate_field(a), one),
+        ("missing_field", |a| Error::missing_field(a), one),
+        ("unknown_field", |a| Error::unknown_field(a), one),
+        ("unknown_field_with_alts", |a| Error::unknown_field_with_alts(a, &["zzzz"]), one),
+        ("unsupported_shape", |a| Error::unsupported_shape(a), one),
+        ("unsupported_shape_with_expected", |a| Error::unsupported_shape_with_expected(a, &format!("exp_{a}")), |a| vec![a.to_string(), format!("exp_{a}")]),
+        ("unsupported_format", |a| Error::unsupported_format(a), one),
+        ("unexpected_type", |a| Error::unexpected_type(a), one),
+        ("unknown_value", |a| Error::unknown_value(a), one),
+        ("too_few_items", |a| Error::too_few_items(a.len() * 1000 + 7), |a| vec![(a.len() * 1000 + 7).to_string()]),
+        ("too_many_items", |a| Error::too_many_items(a.len() * 1000 + 7), |a| vec![(a.len() * 1000 + 7).to_string()]),
+        ("unknown_field_path", |a| Error::unknown_field_path(&syn::parse_str(&format!("{a}::tail")).unwrap()), |a| vec![a.to_string(), "tail".into()]),
+        ("duplicate_field_path", |a| Error::duplicate_field_path(&syn::parse_str(&format!("{a}::tail")).unwrap()), |a| vec![a.to_string(), "tail".into()]),
+        ("missing_field_with_type", |a| Error::missing_field(&format!("{a}_m")), |a| vec![format!("{a}_m")]),
+    ];
+    let mut texts: Vec<(String, String, String)> = vec![];
+    for (kind, mk, want) in &kinds {
+        for a in args {
+            t.evaluations += 1;
+            t.nontrivial += 1;
+            t.hit("message_probe");
+            let bad = |msg: String, t: &mut Tally| {
+                t.violate(Violation { key: format!("C04 message {kind}({a}) :: {msg}"), what: format!("Error::{kind}(`{a}`): {msg}"), case: json!({"engine": "message-probe"}), detail: json!({}) })
+            };
+            let e = match catch(std::panic::AssertUnwindSafe(|| mk(a))) {
+                Ok(e) => e,
+                Err(p) => {
+                    bad(format!("panicked: {p}"), &mut t);
+                    continue;
+                }
+            };
+            let text = e.to_string();
+            for w in want(a) {
+                if !text.contains(&w) {
+                    bad(format!("the message `{text}` does not mention `{w}`"), &mut t);
+                }
+            }
+            if *kind == "custom" && text != a {
+                bad(format!("a custom message displays as `{text}`"), &mut t);
+            }
+            // located: the same text followed by ` at <path>`; a bundle shows every member's text
+            let located = e.clone().at("loc_a").at("loc_b").to_string();
+            if located != format!("{text} at loc_b/loc_a") {
+                bad(format!("located twice it displays `{located}`, expected `{text} at loc_b/loc_a`"), &mut t);
+            }
+            let bundle = Error::multiple(vec![e.clone(), Error::custom("other_leaf").at("o")]).to_string();
+            if !bundle.contains(&text) || !bundle.contains("other_leaf at o") {
+                bad(format!("a bundle holding it displays `{bundle}`"), &mut t);
+            }
+            let first = syn::Error::from(e.clone()).into_iter().next().map(|d| d.to_string()).unwrap_or_default();
+            if first != text {
+                bad(format!("its diagnostic reads `{first}`, its Display `{text}`"), &mut t);
+            }
+            texts.push((kind.to_string(), a.to_string(), text));
+        }
+    }
+    for (i, (k1, a1, t1)) in texts.iter().enumerate() {
+        for (k2, a2, t2) in texts.iter().skip(i + 1) {
+            // the two unknown-field spellings of one name may coincide (no alternative is close)
+            let same_family = |k: &str| k.starts_with("unknown_field") && !k.contains("path");
+            if t1 == t2 && !(a1 == a2 && same_family(k1) && same_family(k2)) && !(k1.starts_with("missing_field") && k2.starts_with("missing_field")) {
+                t.violate(Violation { key: format!("C04 message clash {k1}({a1}) {k2}({a2})"), what: format!("Error::{k1}(`{a1}`) and Error::{k2}(`{a2}`) display the same text `{t1}`"), case: json!({"engine": "message-probe"}), detail: json!({}) });
+            }
+        }
+    }
+    t
+}
+
 pub fn main(args: &Args) {
     if let Some(p) = &args.replay {
         let ok = replay(&crate::load_case(p), false, false);
@@ -812,13 +898,14 @@ pub fn main(args: &Args) {
     let (t, extra) = explore("C04", depth, false, false);
     rep.absorb(t);
     rep.absorb(structured("C04", false, false));
+    rep.absorb(message_probe());
     for (k, v) in extra.as_object().unwrap() {
         rep.set(k, v.clone());
     }
     rep.rule = format!(
         "stateright BFS over build histories of length <= {depth} on a stack (<= {MAX_STACK}) of real darling::Error values; operations {OPS:?}; leaves rotate through all 11 constructors + syn::Error conversion; states are merged on the reference stack and the depth (argument in DESIGN.md C04); EVERY TRANSITION's history (not only the first history reaching a state) is replayed on the real code and compared with the reference tree (len, flatten order/paths/Display, flatten idempotence, into_iter, syn::Error diagnostics, write_errors); plus structured trees beyond that depth (bundles of 4..130 members, nests to 65 levels, empty-string locations; exhaustive over the listed shapes only); non-trivial = top of stack contains at least one bundle"
     );
-    rep.assumptions = vec!["kind-specific message text is taken from darling's own constructors (rewording is not an alarm)".into()];
+    rep.assumptions = vec!["kind-specific message wording is taken from darling's own constructors (rewording is not an alarm); a separate probe requires each of 15 constructors' texts to mention every argument, to differ between kinds and between arguments, and to equal the diagnostic text".into()];
     rep.tally.samples.push(json!({"history": ["Leaf", "Leaf", "Multiple2", "At", "Leaf", "Multiple2", "At", "Flatten"], "expect": "3 leaves; first two display `.. at p1/p0`, third `.. at p1`"}));
     rep.require(rep.tally.states >= 1000, "state space suspiciously small");
     rep.require(rep.tally.outcome_classes.len() >= 8, "too few outcome classes");
